@@ -323,4 +323,51 @@ def encodeExa (p : SessParams) (r : RouteReq) : Out :=
       if (mpPayload p r nh).length + (if (mpPayload p r nh).length > 255 then 4 else 3) > p.msgSize - 23 - attr.length then .raised
       else .sent (be16 0 ++ ([] ++ (be16 (attr ++ mpReach p r nh).length ++ ((attr ++ mpReach p r nh) ++ []))))
 
+/-! ### what a request must look like to be a route of the grammar (the hypotheses of the theorems) -/
+
+/-- The NLRI the peer must end up with: the path identifier is on the wire iff ADD-PATH send was
+    negotiated for the family (0 when none was written), labels, RD and prefix as written. -/
+def wantNlri (p : SessParams) (r : RouteReq) : Nlri :=
+  { pathId := if apSends p r then some (r.pathId.getD 0) else none,
+    labels := r.labels, rd := r.rd, plen := r.plen, pfx := r.pfx }
+
+def U32 (n : Nat) : Prop := n < 4294967296
+
+/-- Ranges the text parser enforces (or the packer: `struct.pack` refuses a value that does not fit);
+    AS path segments are `[ ]` sequences and `( )` sets of 1..255 AS numbers. -/
+def WFReqAttr : ReqAttr → Prop
+  | .origin v => v ≤ 2
+  | .asPath segs => ∀ s ∈ segs, (s.1 = 1 ∨ s.1 = 2) ∧ 1 ≤ s.2.length ∧ s.2.length ≤ 255 ∧ ∀ a ∈ s.2, U32 a
+  | .med v => U32 v
+  | .localPref v => U32 v
+  | .atomicAggregate => True
+  | .aggregator asn ip => U32 asn ∧ U32 ip
+  | .communities cs => ∀ c ∈ cs, U32 c
+  | .originatorId ip => U32 ip
+  | .clusterList ids => ∀ c ∈ ids, U32 c
+  | .extCommunities cs => ∀ c ∈ cs, U32 c.1 ∧ U32 c.2
+  | .largeCommunities cs => ∀ c ∈ cs, U32 c.1 ∧ U32 c.2.1 ∧ U32 c.2.2
+
+def WFNh : NhReq → Prop
+  | .v4 a => a.length = 4 ∧ WFBytes a
+  | .v6 a => a.length = 16 ∧ WFBytes a
+  | .self => True
+
+/-- A route of the static grammar for the families M-Wire-Exa covers. `WFNlri` (of M-Wire) on the
+    NLRI to be announced says: labels exactly for SAFI 4/128 and below 2^20, an 8-byte RD exactly
+    for SAFI 128, mask within the family, prefix bytes = ceil(mask/8), path id below 2^32, and a
+    total length that fits the one-byte NLRI length (the real code raises otherwise). -/
+def WFReq (p : SessParams) (r : RouteReq) : Prop :=
+  (r.afi = 1 ∨ r.afi = 2) ∧ (r.safi = 1 ∨ r.safi = 2 ∨ r.safi = 4 ∨ r.safi = 128) ∧
+  WFNlri r.afi r.safi (apSends p r) false (wantNlri p r) ∧
+  WFNh r.nexthop ∧ (∀ a ∈ r.attrs, WFReqAttr a)
+
+/-- A session two OPENs can produce: AS numbers of 32 bits, the reserved AS_TRANS is nobody's AS,
+    4096 ≤ message size ≤ 65535, addresses of 4 / 16 bytes. -/
+def WFSess (p : SessParams) : Prop :=
+  U32 p.localAs ∧ p.localAs ≠ 23456 ∧ p.msgSize ≤ 65535 ∧
+  (p.localAddr.length = 4 ∨ p.localAddr.length = 16) ∧ WFBytes p.localAddr ∧
+  p.routerId.length = 4 ∧ WFBytes p.routerId ∧
+  (∀ ll, p.linkLocal = some ll → ll.length = 16)
+
 end Exa.WireExa
